@@ -25,7 +25,7 @@ ASSUMPTIONS = ["the template sources themselves are produced once by the parent 
 NSHARDS = {"quick": 8, "thorough": 16}
 BUDGET_S = {"quick": 20, "thorough": 400}
 FLOORS = {
-    "quick": {"evaluations": 3000, "distinct": 300, "counters": {"digest_sets_compared": 600, "hash_seeds": 5}},
+    "quick": {"evaluations": 3000, "distinct": 200, "counters": {"digest_sets_compared": 600, "hash_seeds": 5}},
     "thorough": {"evaluations": 60000, "distinct": 5000, "counters": {"digest_sets_compared": 8000, "hash_seeds": 9}},
 }
 
@@ -95,7 +95,7 @@ def child_main(path):
 
 def run(ctx):
     rng = ctx.rng("c30")
-    n = 400 if ctx.tier == "quick" else 5000
+    n = 120 if ctx.tier == "quick" else 3000
     sources = []
     for i in range(n):
         if i % 2 == 0:
